@@ -461,7 +461,7 @@ def plan_C16(tier, seed):
                       "non-string-keyed maps; plain, nested in slices/maps/pointers/arrays, as named types occurring once or several "
                       "times) with IgnoreInvalidTypes off (error) and on (dropped); types containing themselves through pointers, "
                       "slices, maps and nested structs (error, never a hang); a named type occurring several times (no false cycle); "
-                      "TypeSchemas entries with a type, with several types and without type, at field / pointer / slice / map "
+                      "TypeSchemas entries with a type, with several types and without type (also for named types of unsupported kinds), at field / pointer / slice / map "
                       "positions and for structs embedded by value and by pointer: expected result from Infer.tla!InferOpt; results "
                       "share no Schema object with the entries, which stay unchanged when a result is scribbled over"
                       ". Configuration JSONSCHEMAGODEBUG=typeschemasnull=1: families T and S replayed in a child process with the "
